@@ -993,9 +993,21 @@ def rule_ownership(rep: Report, cu: CUnit) -> None:
                 if e.get('kind') == 'ConditionalOperator':
                     return leaves(e['inner'][1]) + leaves(e['inner'][2])
                 return [e]
+            from ..cfacts import local_defs as _ld
+            defs_n = _ld(cu, name)
+
+            def names_member(a_: Dict[str, Any]) -> bool:
+                # the member itself, or a local whose one definition is the member (`PyObject* kept = self->list;`)
+                if any(m_.get('kind') == 'MemberExpr' for m_ in walk(a_)):
+                    return True
+                for a0 in walk(a_):             # through the casts / parentheses the reference macros add
+                    if a0.get('kind') == 'DeclRefExpr' and a0.get('referencedDecl', {}).get('kind') == 'VarDecl':
+                        ds = [d for d in defs_n.get(a0['referencedDecl']['name'], []) if d is not None]
+                        if len(ds) == 1 and strip(ds[0]).get('kind') == 'MemberExpr':
+                            return True
+                return False
             for lf in leaves(r['inner'][0]):
-                if lf.get('kind') == 'CallExpr' and callee(lf) in ('Py_NewRef', 'Py_XNewRef') and any(
-                        m_.get('kind') == 'MemberExpr' for a_ in call_args(lf) for m_ in walk(a_)):
+                if lf.get('kind') == 'CallExpr' and callee(lf) in ('Py_NewRef', 'Py_XNewRef', '_Py_NewRef', '_Py_XNewRef') and any(names_member(a_) for a_ in call_args(lf)):
                     n_borrowed += 1
                     rep.ok('C11.OWNERSHIP', f'{name}:return {cu.src_of(lf).replace(" ", "")}', 'handed out through Py_NewRef (a new reference)', cu.site(r, name))
                     continue
@@ -1295,9 +1307,24 @@ def rule_member_refs(rep: Report, cu: CUnit) -> None:
                 cur = nxt
             return cur
 
+        def null_edge(node: Node) -> Optional[str]:
+            """the edge label on which the member is known to be NULL when this node is a NULL test of it (directly or of a local that
+            equals it), else None"""
+            a = node.ast
+            if node.kind != 'cond' or not isinstance(a, dict):
+                return None
+            t = cu.src_of(a).replace(' ', '')
+            subj = [f'self->{f}'] + [f'{al}' for al in aliases]
+            for sj in subj:
+                if t in (f'!{sj}', f'{sj}==NULL', f'NULL=={sj}', f'{sj}==0'):
+                    return 'T'
+                if t in (sj, f'{sj}!=NULL', f'NULL!={sj}', f'{sj}!=0'):
+                    return 'F'
+            return None
         while work:
             nid = work.popleft()
             node = g.nodes[nid]
+            ne = null_edge(node)
             for st in list(IN[nid]):
                 outs = step(node, st)
                 if node.kind == 'return' or not g.succ[nid]:
@@ -1305,8 +1332,9 @@ def rule_member_refs(rep: Report, cu: CUnit) -> None:
                 for m, _lab in g.succ[nid]:
                     IN.setdefault(m, set())
                     for o in outs:
-                        if o not in IN[m]:
-                            IN[m].add(o)
+                        o2 = ('null', o[1]) if (ne is not None and _lab == ne and o[0] == 'held') else o
+                        if o2 not in IN[m]:
+                            IN[m].add(o2)
                             work.append(m)
         exits = exits or {entry}
         for s0, cap in exits:
